@@ -92,8 +92,18 @@ pub async fn run_acb_app_to_delta_models(
     let mut delta_results = HashMap::<Security, DeltaListResult>::new();
 
     for (sec, mut sec_txs) in txs_by_sec {
+        // An initial status is a holding of the default affiliate, even if that
+        // affiliate has no Tx of its own.
+        let extra_holders = if all_init_status.contains_key(&sec) {
+            vec![crate::portfolio::Affiliate::default()]
+        } else {
+            Vec::new()
+        };
         if let Err(e) =
-            crate::portfolio::splits::replace_global_security_splits(&mut sec_txs)
+            crate::portfolio::splits::replace_global_security_splits_for_holders(
+                &mut sec_txs,
+                &extra_holders,
+            )
         {
             // Keep the error local to this security, like any other
             // bookkeeping error.
